@@ -106,31 +106,42 @@ func growthWitness(rep *Report) {
 // satisfy it at the same time. Each commits under its own chunk latch into the index's one flat bitmap
 // (defect D25, repaired: the bitmap must already cover every allocated chunk).
 func lateIndexWitness(rep *Report) {
-	c := column.NewCollection(column.Options{Capacity: 64, Vacuum: 24 * time.Hour})
-	c.CreateColumn("a", column.ForInt64())
-	insertMarkers(c, 0, 16384, 32768)
-	for _, r := range []uint32{0, 16384, 32768} {
-		c.QueryAt(r, func(row column.Row) error { row.SetInt64("a", 0); return nil })
+	bad := 0
+	for iter := 0; iter < 40; iter++ {
+		c := column.NewCollection(column.Options{Capacity: 64, Vacuum: 24 * time.Hour})
+		c.CreateColumn("a", column.ForInt64())
+		insertMarkers(c, 0, 16384, 32768)
+		for _, r := range []uint32{0, 16384, 32768} {
+			c.QueryAt(r, func(row column.Row) error { row.SetInt64("a", 0); return nil })
+		}
+		c.CreateIndex("pos", "a", func(r column.Reader) bool { return r.Int() > 0 })
+		var wg sync.WaitGroup
+		start := make(chan struct{})
+		for _, r := range []uint32{16384, 32768} {
+			wg.Add(1)
+			go func(r uint32) {
+				defer wg.Done()
+				<-start // both first commits (the ones that would have to grow the bitmap) start together
+				for i := 0; i < 3; i++ {
+					c.QueryAt(r, func(row column.Row) error { row.SetInt64("a", int64(i+1)); return nil })
+				}
+			}(r)
+		}
+		close(start)
+		wg.Wait()
+		n := 0
+		c.Query(func(txn *column.Txn) error { n = txn.With("pos").Count(); return nil })
+		if n != 2 {
+			bad++
+		}
+		c.Close()
 	}
-	c.CreateIndex("pos", "a", func(r column.Reader) bool { return r.Int() > 0 })
-	var wg sync.WaitGroup
-	for _, r := range []uint32{16384, 32768} {
-		wg.Add(1)
-		go func(r uint32) {
-			defer wg.Done()
-			for i := 0; i < 200; i++ {
-				c.QueryAt(r, func(row column.Row) error { row.SetInt64("a", int64(i+1)); return nil })
-			}
-		}(r)
+	if bad > 0 {
+		v := Violation{Property: rep.Property, Kind: "oracle",
+			Clause: fmt.Sprintf("late index: in %d of 40 rounds an index over two rows with positive values (chunks 1 and 2, written concurrently) does not select exactly those two", bad), Script: []string{"stress lateIndexWitness"}}
+		writeReplay(rep.Property, "stress", &v)
+		rep.Violations = append(rep.Violations, v)
 	}
-	wg.Wait()
-	n := 0
-	c.Query(func(txn *column.Txn) error { n = txn.With("pos").Count(); return nil })
-	if n != 2 {
-		rep.Violations = append(rep.Violations, Violation{Property: rep.Property, Kind: "oracle",
-			Clause: fmt.Sprintf("late index: %d rows selected by an index over two rows with positive values", n), Script: []string{"stress lateIndexWitness"}})
-	}
-	c.Close()
 	rep.count("late-index-witness")
 }
 
